@@ -96,8 +96,8 @@ pub trait SubCheck: Sync {
 	fn cases(&self, tier: Tier) -> u32;
 	fn run(&self, case: &Self::Case, obs: &mut Obs);
 	/// how many shards (threads) to use
-	fn shards(&self, tier: Tier) -> u32 {
-		tier.pick(8, 16)
+	fn shards(&self, _tier: Tier) -> u32 {
+		16
 	}
 	/// smaller cases to try when an enumerated (non-proptest) case fails
 	fn split(&self, _case: &Self::Case) -> Vec<Self::Case> {
